@@ -297,11 +297,8 @@ impl World {
                 out
             }
             "SNAP" => {
-                // run the real snapshot, then report the order in which keys were written (by value address)
-                let dbs = n.dbs.clone();
-                let r = std::panic::catch_unwind(std::panic::AssertUnwindSafe(|| nundb::disk_ops::snapshot_all_pendding_dbs(&dbs)));
-                let mut out = vec![];
-                if r.is_err() { out.push(format!("R PANIC {}", LAST_PANIC.with(|p| p.borrow_mut().take()).unwrap_or_default())); }
+                // the iteration order of every database's map right before the real snapshot: `get_keys_to_update`
+                // iterates the same (unmodified) table, so this is the order the writer's loop will use
                 let mut orders = vec![];
                 {
                     let m = n.dbs.map.read().unwrap();
@@ -309,13 +306,15 @@ impl World {
                     for name in names {
                         let d = m.get(name).unwrap();
                         let mm = d.map.read().unwrap();
-                        let mut ks: Vec<(&String, u64)> = mm.iter().filter(|(_, v)| v.state == ValueStatus::Ok).map(|(k, v)| (k, v.value_disk_addr)).collect();
+                        let ks: Vec<String> = mm.iter().map(|(k, _)| esc_order(k)).collect();
                         if ks.is_empty() { continue; }
-                        ks.sort_by_key(|x| x.1);
-                        let ks: Vec<String> = ks.iter().map(|(k, _)| esc_order(k)).collect();
                         orders.push(format!("{}:{}", esc_order(name), ks.join(",")));
                     }
                 }
+                let dbs = n.dbs.clone();
+                let r = std::panic::catch_unwind(std::panic::AssertUnwindSafe(|| nundb::disk_ops::snapshot_all_pendding_dbs(&dbs)));
+                let mut out = vec![];
+                if r.is_err() { out.push(format!("R PANIC {}", LAST_PANIC.with(|p| p.borrow_mut().take()).unwrap_or_default())); }
                 out.insert(0, format!("@ SNAP order={}", orders.join(";")));
                 out.extend(n.dump_files());
                 out.extend(n.drain_all(None));
